@@ -43,6 +43,7 @@ Definition kind_txt (starts : list N) (k : kind) : str :=
   | KEmpty => bs "Empty()"
   | KCustomBlock => bs "CustomBlock()"
   | KCustomInline n => bs "CustomInline(" ++ dec n ++ bs ")"
+  | KCustomPair n => bs "CustomPair(" ++ dec n ++ bs ")"
   | KCustomCore n => bs "CustomCore(" ++ dec n ++ bs ")"
   end.
 
